@@ -696,61 +696,58 @@ def r08_1(ctx):
 
 @rule("R08.4", ["C08"], "T-WMW", floor=1)
 def r08_4(ctx):
-    """The receive path keeps no state of its own: the only instance state ProtocolHandler.__call__ and
-    EZSP.frame_received modify is the pending entry popped under the frame's sequence number, so a malformed or
-    unexpected frame cannot affect commands issued afterwards."""
+    """A malformed or unexpected frame cannot affect later commands: the only protocol state the receive path
+    (EZSP.frame_received, ProtocolHandler.__call__ and the helpers they call) modifies is the pending entry popped under
+    the frame's sequence number - it never writes an attribute that the command path or the receive path itself reads
+    (sequence counter, pending table, tables, gateway, callbacks). New bookkeeping attributes that nothing on those paths
+    reads (statistics, timestamps) are not state in this sense."""
     from ..su import reachable_names
 
     repo = ctx.repo
-    roots = [repo.func(f"{PROTO}:ProtocolHandler.__call__"), repo.func("bellows.ezsp:EZSP.frame_received")]
-    names = reachable_names(repo, roots) - {"_ezsp_frame_rx"}
-    funcs = [g for g in repo.all_functions() if g.name in names and g.cls is not None and (
-        any(b == "ProtocolHandler" for b in g.cls.base_names()) or (g.cls.name == "EZSP" and g.name == "frame_received"))]
+    rx_roots = [repo.func(f"{PROTO}:ProtocolHandler.__call__"), repo.func("bellows.ezsp:EZSP.frame_received")]
+    tx_roots = [repo.func(f"{PROTO}:ProtocolHandler.command"), repo.func("bellows.ezsp:EZSP._command")]
+
+    def family(names, extra_ok=()):
+        return [g for g in repo.all_functions() if g.name in names and g.cls is not None and (
+            any(b == "ProtocolHandler" for b in g.cls.base_names()) or g.cls.name == "EZSP")]
+
+    rx_funcs = family(reachable_names(repo, rx_roots) - {"_ezsp_frame_rx"})
+    rx_funcs = [g for g in rx_funcs if not (g.cls.name == "EZSP" and g.name not in ("frame_received",))]
+    tx_funcs = family(reachable_names(repo, tx_roots))
+    read = set()
+    for g in rx_funcs + tx_funcs:
+        for n in ast.walk(g.node):
+            if isinstance(n, ast.Attribute) and isinstance(n.ctx, ast.Load) and text(n.value) == "self":
+                read.add(n.attr)
     n_ok = 0
-    for f in funcs:
+    for f in rx_funcs:
         ctx.fn(f)
         for n in ast.walk(f.node):
             tgt = None
             if isinstance(n, ast.Attribute) and isinstance(n.ctx, (ast.Store, ast.Del)) and text(n.value) == "self":
                 tgt = ("store", n.attr)
             elif isinstance(n, ast.Subscript) and isinstance(n.ctx, (ast.Store, ast.Del)) and text(n.value).startswith("self."):
-                tgt = ("item", text(n.value)[5:])
+                tgt = ("item", text(n.value)[5:].split(".")[0].split("[")[0])
             elif isinstance(n, ast.Call) and isinstance(n.func, ast.Attribute) and text(n.func.value).startswith("self.") \
                     and n.func.attr in ("append", "extend", "add", "pop", "remove", "clear", "update", "setdefault", "discard", "insert", "popitem"):
-                tgt = (n.func.attr, text(n.func.value)[5:])
+                tgt = (n.func.attr, text(n.func.value)[5:].split(".")[0].split("[")[0])
             if tgt is None:
                 continue
-            ok = tgt == ("pop", "_awaiting")
-            ctx.require(ok, f"receive-path-write:{tgt[1]}:{tgt[0]}", f"{f.short} (on the receive path) modifies self.{tgt[1]} ({tgt[0]}) at line {n.lineno}", func=f, node=n)
-            n_ok += ok
+            if tgt == ("pop", "_awaiting"):
+                n_ok += 1
+                ctx.ok(1)
+                continue
+            # a pure counter / timestamp that is only ever written (or read only by its own update) is not protocol state
+            own_update = isinstance(n, ast.Attribute) and any(isinstance(q, ast.AugAssign) and q.target is n for q in ast.walk(f.node))
+            other_reads = tgt[1] in read and not (own_update and _only_read_by_own_update(repo, rx_funcs + tx_funcs, tgt[1]))
+            ctx.require(not other_reads, f"receive-path-write:{tgt[1]}:{tgt[0]}", f"{f.short} (on the receive path) modifies self.{tgt[1]} ({tgt[0]}) at line {n.lineno}, "
+                        "which the command / receive path reads: an unexpected frame can then affect later commands", func=f, node=n)
     ctx.anchor(n_ok >= 1, "the receive path pops the matched pending entry")
 
 
-@rule("R06.9", ["C06", "C09"], "T-FUN", floor=2)
-def r06_9(ctx):
-    """EZSP._command resolves the command on the handler that is installed *now*: after the handler object has been
-    replaced (version switch, reset) the same command name is sent through the new handler, not through a
-    remembered one - a request registered in a discarded handler would never see its reply."""
-    repo = ctx.repo
-    f = repo.func("bellows.ezsp:EZSP._command")
-    ctx.fn(f)
-    ez = repo.cls("bellows.ezsp", "EZSP")
-    for ver_a, ver_b in ((8, 8), (4, 8), (8, 4)):
-        px = PX(repo, models=[("*.is_set", lambda px_, t, a, k, fr: True)], inline=same_class(stop=("handle_callback",)))
-        px.inline.root = f
-
-        def entry():
-            me = self_obj(ez, {"_protocol": Obj(TypeRef("Handler"), {}, tag="handlerA"), "_ezsp_version": ver_a})
-            px.top_frame = None
-            px.call_function(f, me, ["nop"], {}, None)
-            me.fields["_protocol"] = Obj(TypeRef("Handler"), {}, tag="handlerB")
-            me.fields["_ezsp_version"] = ver_b
-            px.call_function(f, me, ["nop"], {}, None)
-            return None
-
-        for p in px._run(entry):
-            aw = [e for e in p.events if e.kind == "await"]
-            got = [e.callee for e in aw]
-            ctx.require(p.terminal == "return" and got == ["handlerA.nop", "handlerB.nop"], f"current-handler:{ver_a}->{ver_b}",
-                        f"two nop commands around a handler replacement (version {ver_a} -> {ver_b}) are sent through {got}; the second must use the "
-                        "new handler", func=f, trace=p.trace(10))
+def _only_read_by_own_update(repo, funcs, attr):
+    for g in funcs:
+        for n in ast.walk(g.node):
+            if isinstance(n, ast.Attribute) and isinstance(n.ctx, ast.Load) and text(n.value) == "self" and n.attr == attr:
+                return False
+    return True
